@@ -66,10 +66,10 @@ def translate(repo):
         raise TranslateError("TextFile::readLine(String&): chunk = %d < 2: fgets(.., chunk, ..) reads no byte, the loop cannot end" % chunk)
     flat = _flat(body)
     shape = ("do{s.resize(m+chunk);char*r=fgets(&s[m],chunk,_file);if(!r){s[m]='\\0';s.fix(m);returnfalse;}"
-             "n=(int)strlen(*s+m)+m;if(s[n-1]=='\\n'){n--;s[n]='\\0';if(n>0&&s[n-1]=='\\r'){n--;s[n]='\\0';}break;}m=n;}while(1);s.fix(n);returntrue;")
+             "n=(int)strlen(*s+m)+m;if(n>0&&s[n-1]=='\\n'){n--;s[n]='\\0';if(n>0&&s[n-1]=='\\r'){n--;s[n]='\\0';}break;}m=n;}while(1);s.fix(n);returntrue;")
     if shape not in flat:
         raise TranslateError("TextFile::readLine(String&): the fgets loop no longer has the transcribed shape "
-                             "(resize m+chunk; fgets(&s[m], chunk); NULL => fix(m), false; strip LF then one CR; m = n)")
+                             "(resize m+chunk; fgets(&s[m], chunk); NULL => fix(m), false; n = m + strlen; n > 0 and LF => strip LF then one CR; m = n)")
     # ---- lines()
     body = _flat(cparse.find_function(tf, r"Array<String>\s+TextFile::lines\s*\(\s*\)\s*\{"))
     if "while(!end()){lines<<String();readLine(lines.last());}" not in body:
@@ -530,6 +530,17 @@ def gen(rng, tier):
             c += ["tput 1b " + hexs(t), "open 1b t r"] + [rng.choice(["rl", "rl", "rl", "rlc 0a", "rlc 0d", "rlc 3b"]) for _ in range(rng.randrange(1, 7))]
             c += ["end", "close", "lines 1b", "text 1b"]
         cases.append(c)
+    # B3b: outside the property's domain (model only): texts with NUL bytes (strlen drops the rest of the fgets chunk),
+    # NUL as first byte of a line (repaired d08b735: readLine read s[-1])
+    for i in range(60 if quick else 1500):
+        t, _ = gen_text(rng, 5)
+        b = bytearray(t)
+        for _ in range(rng.randrange(1, 4)):
+            pos = rng.choice([0, len(b), rng.randrange(0, len(b) + 1)])
+            b[pos:pos] = b"\x00"
+        if rng.random() < 0.3:
+            b = bytearray(b"\x00") + b
+        cases.append(["xlines " + hexs(bytes(b)), "xrl " + hexs(bytes(b)), "rawput 1b " + hexs(bytes(b)), "open 1b t r", "rl", "rl", "rl", "end", "close"])
     # B4: long lines / many lines
     for n in ([3000, 65536, 200000] if quick else [3000, 65536, 200000, 1 << 20, 1 << 22]):
         cases.append(["xlines " + btok(rng, n, True), "xrl " + btok(rng, n, True)])
@@ -729,7 +740,8 @@ ASSUMPTIONS = ["fopen modes (C11 7.21.5.3): r needs the file, w creates/truncate
                "fread(p, 1, n, f) returns the next min(n, remaining) bytes and sets the EOF indicator iff fewer than n remained; feof reads it; fseek clears it; ftell = offset",
                "stat().st_size is the file length; rename() replaces the destination and fails with EXDEV across devices (/tmp vs /dev/shm); unlink removes the file",
                "String(const char*, n), String::resize/fix keep n bytes (C03); String(const wchar_t*) is AslModel.Utf.fromWide (C08)",
-               "content is NUL-free for the line readers (strlen); files are smaller than 2 GiB (text() masks the size with 0x7fffffff)"]
+               "theorems about lines assume NUL-free content (readLine uses strlen; the model keeps the strlen behaviour and K exercises it); "
+               "files are smaller than 2 GiB (text() masks the size with 0x7fffffff)"]
 TECHNIQUE = ("Lean 4 theorems (induction over byte lists / histories) about an executable model of File, TextFile and Directory::copy/move "
              "whose constants are regenerated from the source + differential correspondence check against the real library on real files")
 LEVEL_TEXT = ("Proved in Lean 4 about the executable model the driver runs (AslModel/FileText.lean), for ALL inputs: lines() = split at LF with "
@@ -750,10 +762,12 @@ LEVEL_TEXT = ("Proved in Lean 4 about the executable model the driver runs (AslM
               "real libc by the correspondence check (K), and an independent python reference judges lines/text/round trips/copy/move.")
 LEVEL_NOTE = ("Hypotheses (modelled, exercised by K, not verified): stdio and POSIX behave as listed under `assumptions` (fopen modes, fwrite "
               "delivery by fclose, fgets/fread/feof, stat size, rename/EXDEV/unlink); files are observed after the writer is closed (a still-open "
-              "writer's buffered bytes and its cached size are not an `afterwards` observation); content is NUL-free for the line readers "
-              "(strlen; a NUL makes readLine read s[-1]) and files are < 2 GiB (text() masks the size). Partial: text_utf16_partial excludes "
+              "writer's buffered bytes and its cached size are not an `afterwards` observation); the line theorems assume NUL-free content "
+              "(readLine measures chunks with strlen; the model transcribes that and K covers NUL content, but no theorem speaks about it) and "
+              "files are < 2 GiB (text() masks the size). Partial: text_utf16_partial excludes "
               "exactly the texts with an adjacent CR LF (known finding utf16-crlf-fold: deliberate folding in TextFile::text(), "
               "text_utf16_crlf_counterexample); paths are abstract (4 names in 2 directories: no symlinks/hard links, permissions or disk-full "
               "errors, so the failing-copy branch of the EXDEV move is in the model but never taken by K); printf/scanf/operator>> of "
               "TextFile, File::temp, Windows halves are outside the model. Repaired in /repo for this property: copy onto itself truncated "
-              "the file (576b460); cross-device move returned false and removed the source unconditionally (a7085af).")
+              "the file (576b460); cross-device move returned false and removed the source unconditionally (a7085af); readLine read one byte "
+              "before its buffer on a line starting with NUL (d08b735, outside the property's NUL-free domain).")
